@@ -52,3 +52,38 @@ def Event.print (e : Event) : String :=
   | .disj .. => "(" ++ " or ".intercalate (e.simpleEvents.map Event.printSimple) ++ ")"
 
 end Hpl
+
+namespace Hpl
+/-! ### scopes, patterns, properties, specifications (`__str__` of `hpl.ast.properties` / `specs`) -/
+
+/-- `repr` of a Python float (see `Hpl.floatReprS`): supplied as a parameter so that the printer does not depend on it -/
+def Scope.print (s : Scope) : String :=
+  match s.kind, s.activator, s.terminator with
+  | .global, _, _ => "globally"
+  | .after, some a, _ => "after " ++ a.print
+  | .until_, _, some q => "until " ++ q.print
+  | .afterUntil, some a, some q => "after " ++ a.print ++ " until " ++ q.print
+  | .after, none, _ => "after None"
+  | .until_, _, none => "until None"
+  | .afterUntil, _, _ => "after None until None"
+
+/-- the time bound as printed: milliseconds below one second, seconds otherwise (`fmt` = Python float formatting) -/
+def timeSuffix (fmt : Rat → String) : Option Rat → String
+  | none => ""
+  | some t => if t < 1 then " within " ++ fmt (t * 1000) ++ "ms" else " within " ++ fmt t ++ "s"
+
+def Pattern.print (fmt : Rat → String) (p : Pattern) : String :=
+  let t := timeSuffix fmt p.maxTime
+  let trig := match p.trigger with | some e => e.print | none => "None"
+  match p.kind with
+  | .existence => "some " ++ p.behaviour.print ++ t
+  | .absence => "no " ++ p.behaviour.print ++ t
+  | .response => trig ++ " causes " ++ p.behaviour.print ++ t
+  | .requirement => p.behaviour.print ++ " requires " ++ trig ++ t
+  | .prevention => trig ++ " forbids " ++ p.behaviour.print ++ t
+
+def Property.print (fmt : Rat → String) (p : Property) : String := p.scope.print ++ ": " ++ p.pattern.print fmt
+
+def printSpec (fmt : Rat → String) (ps : List Property) : String := "\n".intercalate (ps.map (Property.print fmt))
+
+end Hpl
